@@ -108,7 +108,14 @@ pub fn ref_bin(op: u8, a: i64, b: i64) -> Want {
             if b < 0 || b > 63 {
                 if a == 0 && b >= 0 { Want::FailOr(0) } else { Want::Fail }
             } else {
-                Want::Val(((a as u64) << (b as u32)) as i64)
+                let wrapped = ((a as u64) << (b as u32)) as i64;
+                if (wrapped >> (b as u32)) == a {
+                    Want::Val(wrapped)
+                } else {
+                    // significant bits are shifted out: the table leaves open whether that is an
+                    // overflow (error) or a plain 64-bit shift
+                    Want::FailOr(wrapped)
+                }
             }
         }
         9 => {
